@@ -164,9 +164,10 @@ def prologue (c : Cfg) (op : Op) (a b : Nat) : Prologue Nat :=
     -- `-=`:  `if (rhs.isnan()) return *this += rhs; else return *this += -rhs;` — negation keeps a non-NaN a non-NaN,
     -- so the NaN tests of `+=` see the same answers.
     -- #if: `if (isnan(SIGNALLING) || rhs.isnan(SIGNALLING)) throw cfloat_operand_is_nan{}`
-    -- #else: signalling → setnan(SIGNALLING); return.   quiet → setnan(QUIET); return.      (D22: quiet test is inside #else)
+    -- #else: signalling → setnan(SIGNALLING); return.
+    -- after #endif (both builds, since fix 896b71f): quiet → setnan(QUIET); return.
     if anyS then { throws := some .cfloat_operand_is_nan, qEarly := some (nanEnc c .signalling) }
-    else if anyQ then { qEarly := some (nanEnc c .quiet) }
+    else if anyQ then { tEarly := some (nanEnc c .quiet), qEarly := some (nanEnc c .quiet) }
     else {}
   | .div =>
     -- #if: `if (rhs.iszero()) throw cfloat_divide_by_zero(); if (rhs.isnan()) throw cfloat_divide_by_nan();
